@@ -1,9 +1,10 @@
 #!/bin/sh
-# usage: scripts/sweep.sh [quick|thorough] [seed]   - every check once, one summary line each
+# usage: scripts/sweep.sh [quick|thorough] [seed] ["C01 C02 ..."]   - every (or the listed) check once, one summary line each
 ROOT=$(cd "$(dirname "$0")/.." && pwd)
 TIER="${1:-quick}"; export VERIF_SEED="${2:-0}"
 mkdir -p "$ROOT/sweep-logs"
-for p in C01 C02 C03 C04 C05 C06 C07 C08 C09 C10 C11 C12 C13 C14 C15 C16 C17; do
+LIST="${3:-C01 C02 C03 C04 C05 C06 C07 C08 C09 C10 C11 C12 C13 C14 C15 C16 C17}"
+for p in $LIST; do
   s=$(date +%s); "$ROOT/scripts/check.sh" $p $TIER > "$ROOT/sweep-logs/$p.$TIER.log" 2>&1; rc=$?
   echo "$p tier=$TIER seed=$VERIF_SEED exit=$rc $(( $(date +%s)-s ))s $(grep -cE '^VIOLATION' "$ROOT/sweep-logs/$p.$TIER.log")v $(grep -cE '^KNOWN-FINDING' "$ROOT/sweep-logs/$p.$TIER.log")k $(grep -cE '^SPEC-DRIFT' "$ROOT/sweep-logs/$p.$TIER.log")d $(grep -cE '^MACHINERY' "$ROOT/sweep-logs/$p.$TIER.log")m"
 done
